@@ -205,6 +205,21 @@ def run(ctx: Ctx) -> None:
             if rejects:
                 found = True
         ctx.check(found, "RF-TABLE", f"signature-compares:{attr}", sig, lp, ok=f"a differing field {attr} is refused with TypeError", bad=f"the request's field {attr} is not compared with the declared one (a request differing only in {attr} reaches the method)")
+    # the per-field comparison cannot be skipped once a request schema is present
+    rs_vars = {t.id for n in walk_scope(sig.node) if isinstance(n, ast.Assign) and isinstance(n.value, ast.Call) and last_attr(n.value) == "get" and "_current_request_param_schema" in txt(n.value.func) for t in n.targets if isinstance(t, ast.Name)}
+    skip_edges: set[tuple[int, int]] = set()
+    for n in walk_scope(sig.node):
+        if isinstance(n, ast.If):
+            from ..util import is_none_test as _int
+
+            t = _int(n.test)
+            if t and isinstance(t[0], ast.Name) and t[0].id in rs_vars:
+                skip_edges |= gcfg.test_edges(n, "T" if t[1] else "F")
+    r_skip = gcfg.reach({gcfg.entry}, gcfg.done(lp), skip_edges)
+    ctx.check(gcfg.exit not in r_skip, "RF-DOM", "field-comparison-dominates-acceptance", sig, lp,
+              ok="whenever a request schema was recorded, acceptance passes through the field-by-field comparison",
+              bad="the function can accept a request (return normally) without running the field-by-field comparison although a request schema is present (e.g. a memoised 'already accepted' shortcut): a non-conforming request reaches the method",
+              path=gcfg.describe_path(gcfg.witness_path({gcfg.entry}, {gcfg.exit}, gcfg.done(lp), skip_edges), sig.module.relpath) if gcfg.exit in r_skip else None)
     # count check
     cnt = [n for n in walk_scope(sig.node) if isinstance(n, ast.If) and len([c for c in ast.walk(n.test) if isinstance(c, ast.Call) and isinstance(c.func, ast.Name) and c.func.id == "len"]) == 2]
     okc = False
@@ -257,7 +272,21 @@ def run(ctx: Ctx) -> None:
     kw_assign = [n for n in walk_scope(rr.node) if isinstance(n, ast.Assign) and any(isinstance(t, ast.Name) and t.id in ret_names for t in n.targets)]
     ka = one(kw_assign, "kwargs construction", rr)
     bvar = names_in(s1.args[0]) & names_in(ka.value)
-    ctx.check(bool(bvar), "RF-TAINT", "recorded-schema-is-kwargs-source", rr, s1, ok="the schema recorded for the signature check is the schema of the batch the kwargs are read from",
-              bad="the schema recorded for the signature check is not the schema of the batch the kwargs come from")
+    rcfg2 = cfg_of(rr.node)
+    stale = []
+    for v in bvar:
+        for n in walk_scope(rr.node):
+            tgts: list[ast.expr] = []
+            if isinstance(n, ast.Assign):
+                tgts = n.targets
+            elif isinstance(n, (ast.AnnAssign, ast.AugAssign)):
+                tgts = [n.target]
+            if not any(isinstance(x, ast.Name) and x.id == v for t in tgts for x in ast.walk(t)):
+                continue
+            # a rebinding of the batch variable between recording its schema and reading the kwargs off it
+            if (rcfg2.attempt(n) & rcfg2.reach(rcfg2.done(s1), include_start=False)) and (rcfg2.attempt(ka) & rcfg2.reach(rcfg2.done(n), include_start=False)):
+                stale.append(n)
+    ctx.check(bool(bvar) and not stale, "RF-TAINT", "recorded-schema-is-kwargs-source", rr, stale[0] if stale else s1, ok="the schema recorded for the signature check is the schema of the batch the kwargs are read from (no rebinding in between)",
+              bad="the schema recorded for the signature check is not the schema of the batch the kwargs come from: the batch variable is rebound (external / shm pointer resolution) between recording the schema and reading the kwargs, so a pointer request is checked against the pointer batch's schema")
     gets = [c for c in calls(sig) if last_attr(c) == "get" and "_current_request_param_schema" in txt(c.func)]
     ctx.check(bool(gets), "RF-TAINT", "signature-check-reads-recorded-schema", sig, gets[0] if gets else None, ok="the signature check reads the recorded request schema", bad="the signature check does not read the request's schema")
